@@ -235,6 +235,29 @@ fn splits(s: &[u8], k: usize) -> Vec<Vec<Vec<u8>>> {
     out
 }
 
+/// first-line lengths of the sweep: every length up to 600, and a window around every power of two
+/// and the LW / HW marks of `Framed` up to 9000 (a newline at exactly such an offset is where a
+/// search that works in blocks goes wrong)
+fn sweep_lengths() -> Vec<usize> {
+    let mut v: Vec<usize> = (0..=600).collect();
+    for n in [1024usize, 2048, 4096, 8192, 9000] {
+        v.extend(n - 3..=n + 3);
+    }
+    v
+}
+
+/// a stream for the sweep: a first line of `n` bytes (every 7th with CR LF, the CR counted in), then a
+/// short second line (terminated or not)
+fn sweep_stream(n: usize) -> Vec<u8> {
+    let mut s: Vec<u8> = (0..n).map(|i| b'a' + ((i + n) % 26) as u8).collect();
+    if n % 7 == 3 && n > 0 {
+        s[n - 1] = b'\r';
+    }
+    s.push(b'\n');
+    s.extend_from_slice(if n % 2 == 0 { b"zz\n" } else { b"z" });
+    s
+}
+
 fn parse_strs(ws: &[&str]) -> Option<Vec<String>> {
     ws.iter().map(|h| unhex(h).and_then(|v| String::from_utf8(v).ok())).collect()
 }
@@ -365,6 +388,25 @@ fn gen_c15(a: &Args, w: &mut dyn Write) {
                 writeln!(w, "{op} {}", ps.iter().map(|p| hex(p)).collect::<Vec<_>>().join(" ")).unwrap();
             }
             _ => writeln!(w, "dec {}", hex(&s)).unwrap(),
+        }
+    }
+    // (3b) length sweep: the newline of the first line at every buffer offset 0..=600 and around
+    // 1024, 2048, 4096, 8192, 9000, a second line behind it; fed whole, and to one codec instance split
+    // just before / at / after / one past the newline
+    {
+        let mut n_ops = 0usize;
+        for n in sweep_lengths() {
+            if n_ops % 500 == 0 {
+                writeln!(w, "case lines-sweep-{}", n_ops / 500).unwrap();
+            }
+            n_ops += 1;
+            let s = sweep_stream(n);
+            writeln!(w, "dec {}", hex(&s)).unwrap();
+            writeln!(w, "chunkse {}", hex(&s)).unwrap();
+            for cut in [n.saturating_sub(1), n, n + 1, n + 2] {
+                let cut = cut.min(s.len());
+                writeln!(w, "{} {} {}", if (n + cut) % 2 == 0 { "chunks" } else { "chunkse" }, hex(&s[..cut]), hex(&s[cut..])).unwrap();
+            }
         }
     }
     // (4) very long lines (1..20 KB: beyond memchr's word-at-a-time paths and the 8 KiB mark), with
@@ -1275,6 +1317,25 @@ fn oracle_c13(s: &mut Session, rep: &mut Report) {
         }
         i = j;
     }
+    // LinesCodec without a swap: also against the independent splitter (the whole-stream reference
+    // above uses the crate's own codec, which a defect of the codec itself would fool): the frames are
+    // the reference lines of the delivered bytes, in order — before end of file those of the complete
+    // (LF-terminated) lines only; once `None` was answered, all of them
+    if s.swap_points.is_empty() && !frames.is_empty() && frames.iter().all(|(_, c)| *c == Sel::Lines) {
+        let upto = if at_eof { d.len() } else { d.iter().rposition(|b| *b == b'\n').map_or(0, |p| p + 1) };
+        let want: Vec<Out> = lines_reference(&d[..upto])
+            .into_iter()
+            .map(|l| match l {
+                LineItem::Ok(v) => Out::Item(v),
+                LineItem::Err => Out::DecErr(io::ErrorKind::InvalidData),
+            })
+            .collect();
+        let got: Vec<Out> = all.iter().filter(|o| **o != Out::None).cloned().collect();
+        let none_seen = all.iter().any(|o| *o == Out::None);
+        if !want.starts_with(&got) || (none_seen && got.len() != want.len()) {
+            rep.t3("C13", &format!("lines codec: Framed yielded [{}] but the reference splitter gives [{}] for the {} bytes delivered (end of file answered: {at_eof})", show_outs(&all), show_outs(&want), d.len()));
+        }
+    }
     // no read while a complete frame is buffered
     let snaps = &io.read_snaps;
     let mut checked = s.snaps_checked;
@@ -1713,6 +1774,29 @@ fn gen_c13(a: &Args, w: &mut dyn Write) {
                 }
             }
         });
+    }
+    // (S) length sweep for LinesCodec under Framed: the newline of the first line at every offset
+    // 0..=600 and around 1024, 2048, 4096, 8192, 9000, a second line behind it; delivered in chunks of
+    // 1 KiB (whole when it fits), and with a chunk boundary just before / at / after the newline
+    for n in sweep_lengths() {
+        let s = sweep_stream(n);
+        for cut in [None, Some(n.saturating_sub(1)), Some(n), Some(n + 1)] {
+            let mut script = vec![];
+            let parts: Vec<&[u8]> = match cut {
+                None => vec![&s[..]],
+                Some(c) => vec![&s[..c.min(s.len())], &s[c.min(s.len())..]],
+            };
+            for part in parts {
+                for ch in part.chunks(MAX_CHUNK) {
+                    script.push(Rd::Data(ch.to_vec()));
+                }
+            }
+            if n % 5 == 0 {
+                script.insert(script.len() / 2, Rd::Pending);
+            }
+            let polls = script.len() + 5;
+            emit_c13x(w, &mut id, Sel::Lines, "sweep", &script, polls, if n % 4 == 1 { " init=parts" } else { "" });
+        }
     }
     // (D) long random streams crossing the 1 KiB / 8 KiB marks, random chunk sizes up to 1 KiB
     let mut rng = Rng::new(a.seed ^ 0x13);
